@@ -11,6 +11,10 @@ CLAIMS = {
    technique="sibling-iteration loop discovery on SSA + effect summaries (PEA, callbacks closed over the call graph) for iterator invalidation; table extraction for inline-tag handling; who-writes rule for the flush flag; loop transition extraction for ApplyToModel",
    text="Decides the structural causes by which a simple paragraph could be cut: (I1) no sibling walk anywhere in the analysed program can have its cursor's link rewritten by a call made before the cursor advances (the WalkNodes defect class), (I2) the nine simple inline tags are inline, never flush or label a block, are never dropped unconditionally, and only SkipNode/StartNode raise the flush flag, (I3) a content block marks every one of its Text elements. Not decided: the classifier's content decision itself.",
    design="4/C03"),
+ "C04": dict(
+   technique="path enumeration of the converter's element visitor with builder calls as events (visibility gate dominance), decision-list conformance of IsProbablyVisible / InnerText / the clone visitor / the node dispatcher, switch-table extraction for the skip list, reviewed table of wholesale copies",
+   text="Decides that every route from source nodes to output is gated: nothing is admitted by the main walk, by the table/caption/embed cloner or by the text renderer unless the element was tested probably-visible (and is not script/style) first, on every path; the predicate looks at exactly the four documented signals with inline display overriding tag defaults; the listed non-reading tags are never walked; captions picked from the page are visibility-checked up to their figure. Not decided: CSS the port cannot see and the regex semantics.",
+   design="4/C04"),
  "C05": dict(
    technique="sibling-agreement dataflow rule over all Element.GenerateOutput implementations (same-SSA-value strip-before-serialise with helper/field summaries, must-pass-through on the CFG), literal allow-list extraction, decision-list conformance of the clone visitor",
    text="Decides for every element kind and every path that whatever reaches dom.OuterHTML/InnerHTML has passed StripAttributes as the same value (or comes from a helper/field that always strips, or is the distiller's own placeholder wrapper with stripped children), that nothing is added afterwards, that the allow-list has no on* attribute and id/class/style are always dropped for root and descendants, and that script/style and hidden nodes cannot enter wholesale clones or the main walk. Not decided: the serializer and attribute values.",
